@@ -79,6 +79,9 @@ def do_replay(prop, path):
     elif rp.get("kind") == "edif_net_counts":
         from vf.e1.compose_jobs import replay_edif_net_counts
         viol, txt = replay_edif_net_counts(rp)
+    elif rp.get("kind") == "port_map":
+        from vf.e1.verilog_jobs import replay_port_map
+        viol, txt = replay_port_map(rp)
     elif rp.get("kind") == "writer_injective":
         from vf.e1.compose_jobs import replay_writer_injective
         viol, txt = replay_writer_injective(rp)
